@@ -379,9 +379,15 @@ def _c07(names, module, fn, what):
     out = []
     for h in names:
         n = h.rsplit("_", 1)[1]
+        if "walker" in h:
+            what = "parse_rtcp_packets walker [%s]" % h.split("walker_")[1].rsplit("_", 1)[0]
+        bound = "input length exactly %s bytes, symbolic content" % n
+        if "walker" in h:
+            bound = ("one sub-packet of exactly %s bytes: type octet and length-in-words field are literals (with a symbolic type or length "
+                     "CBMC does not finish); version, padding bit, count, body and the padding-count octet symbolic" % n)
         out.append(K("%s total on %s bytes" % (what, n), h, "quick", "bounded", [fn],
                      "every byte string of this length yields a value or an error: no panic, overflow, out-of-bounds, unwrap on None; loops within the unwinding bound",
-                     bound="input length exactly %s bytes, symbolic content" % n, module=module))
+                     bound=bound, module=module))
     return out
 
 
@@ -408,7 +414,7 @@ PROPS["C07"] = {
         + _c07(["c07_parse_twcc_15", "c07_parse_twcc_20"], RM, "parse_twcc_body", "parse_twcc_body")
         + _c07(["c07_parse_fir_7", "c07_parse_fir_24"], RM, "parse_fir_body", "parse_fir_body")
         + _c07(["c07_walker_unknown_4", "c07_walker_unknown_8", "c07_walker_xr_8", "c07_walker_rr_8", "c07_walker_sr_28"], RM, "parse_rtcp_packets",
-               "parse_rtcp_packets (compound walker; ONE sub-packet, type octet and length field fixed: unknown=0 / XR=207 / RR=201 / SR=200 (PSFB=206 in the thorough tier); V, P, count, body, padding count symbolic)")
+               "parse_rtcp_packets walker (1 sub-packet, literal type/length)")
         + _c07(["c07_stun_decode_0", "c07_stun_decode_19", "c07_stun_decode_20"], SM, "decode_stun_message", "decode_stun_message")
         + [
             K("ClientHello::decode fields (literal framing, 42 B)", "c07_client_hello_fields_literal_42", "quick", "bounded", ["ClientHello::decode"],
@@ -425,7 +431,7 @@ PROPS["C07"] = {
         ]
         + [dict(o, tier="thorough", timeout=1500) for o in _c07(["c07_parse_rtpfb_16"], RM, "parse_rtcp_rtpfb", "parse_rtcp_rtpfb")
            + _c07(["c07_parse_nack_16"], RM, "parse_nack_body", "parse_nack_body")
-           + _c07(["c07_walker_psfb_12"], RM, "parse_rtcp_packets", "parse_rtcp_packets (compound walker; ONE sub-packet, type octet PSFB=206 and length field fixed)")]
+           + _c07(["c07_walker_psfb_12"], RM, "parse_rtcp_packets", "parse_rtcp_packets walker (1 sub-packet, literal type/length)")]
     ),
 }
 
